@@ -65,6 +65,7 @@ MD_TEMPLATES = {
     "H": ("# ", 1),     # heading / comment inside a block
     "B": ("", 0),       # blank
     "F": ("```s", 0),   # scrut fence
+    "f": ("```sx", 0),  # scrut fence of the second configured language (whose name the first is a prefix of)
     "V": ("```x", 0),   # foreign-language fence
     "E": ("```", 0),    # bare fence
     "C": ("$ ", 1),     # command
@@ -74,6 +75,7 @@ MD_TEMPLATES = {
     "w": ("> ", 1, " "),  # continuation that ends in a blank
     "X": ("", 2),       # two letters: expectation / prose
     "R": ("[7]", 0),    # exit code
+    "r": ("[0]", 0),    # the exit code 0 written out
     "L": ("````s", 0),  # scrut fence of four backticks (nested shorter fences are content)
     "K": ("````", 0),   # bare fence of four backticks
     "I": ("  ```", 0),  # an indented backtick run: never a fence
@@ -82,10 +84,12 @@ MD_TEMPLATES = {
     "D": ("---", 0),    # front-matter delimiter (only generated as first line and as its closing line)
     "Y": ("k: ", 1),    # a line of front-matter
 }
-FENCES = {"F": 3, "V": 3, "E": 3, "L": 4, "K": 4, "J": 3, "Q": 3}      # template → number of backticks at the start of the line
-SCRUT_FENCES = ("F", "L", "J", "Q")
+FENCES = {"F": 3, "f": 3, "V": 3, "E": 3, "L": 4, "K": 4, "J": 3, "Q": 3}      # template → number of backticks at the start of the line
+SCRUT_FENCES = ("F", "f", "L", "J", "Q")
+LANGUAGES = ["s", "sx"]       # the configured test languages of every document harness
 CONTINUATIONS = ("G", "g", "w")
 COMMANDS = ("C", "c")
+EXIT_CODES = {"R": 7, "r": 0}
 
 
 def md_text(t, payload):
@@ -177,10 +181,10 @@ def md_reference_body(seq):
                     exps = []
                     exit_code = None
                     for x in code[p:]:
-                        if seq[x] == "R":
+                        if seq[x] in EXIT_CODES:
                             if exit_code is not None:
                                 return "error"
-                            exit_code = 7
+                            exit_code = EXIT_CODES[seq[x]]
                         else:
                             exps.append(x)
                     if any(seq[x] == "I" for x in last_title_run):
@@ -217,7 +221,7 @@ def md_parse_driver(ctx, args):
     from props.c08 import get_maker
     maker = get_maker(ctx)
     cfg = ctx.call(prog.resolve_call("TestCaseConfig::default_markdown"), [])
-    parser = mk_struct("MarkdownParser", expectation_maker=maker, languages=VecBuf([StringBuf([SInt(ord("s"), "char")])]), base_testcase_config=cfg)
+    parser = mk_struct("MarkdownParser", expectation_maker=maker, languages=VecBuf([StringBuf([SInt(ord(c), "char") for c in l_]) for l_ in LANGUAGES]), base_testcase_config=cfg)
     return ctx.call(parse, [new_ref(parser), args[0]])
 
 
@@ -292,7 +296,7 @@ def md_post(ctx, args, kind, value):
         ln = field_of(got, "line_number")
         conds.append(ln.concrete and ln.v == w["line"])
         ec = field_of(got, "exit_code")
-        pre_has_code = any(seq[x] == "R" for x in w["pre"])
+        pre_has_code = any(seq[x] in EXIT_CODES for x in w["pre"])
         if pre_has_code:
             pass                 # an exit-code line before the command: left open
         elif w["exit"] is None:
@@ -372,7 +376,7 @@ def md_judge_native(doc_lines_seq, nv):
             return ("parse:shell-expression", "document %r: shell expression %r, written %r" % (lines, got["shell_expression"], cmd))
         if got["line_number"] != w["line"]:
             return ("parse:line-number", "document %r: line number %d, the `$` line is line %d" % (lines, got["line_number"], w["line"]))
-        if got["exit_code"] != w["exit"] and not any(seq[x] == "R" for x in w["pre"]):
+        if got["exit_code"] != w["exit"] and not any(seq[x] in EXIT_CODES for x in w["pre"]):
             return ("parse:exit-code", "document %r: exit code %r, written %r" % (lines, got["exit_code"], w["exit"]))
         extra = len(got["expectations"]) - len(w["exps"])
         if extra < 0 or extra > len(w["pre"]) or got["expectations"][extra:] != [lines[i] for i in w["exps"]]:
@@ -422,6 +426,11 @@ def h_md_parse(max_len):
         if s_ not in seen and any(x in s_ for x in "cgw"):
             seqs.append(s_)
             seen.add(s_)
+    # blocks of a second configured language
+    for s_ in md_sequences(max_len, "FfCXE", need="f"):
+        if s_ not in seen:
+            seqs.append(s_)
+            seen.add(s_)
     inputs = [("doc=%s" % (s or "(empty)"), mk_md_setup(s)) for s in seqs]
     # the same parse for CR LF line endings and for a document cut off after its last line (no final newline)
     for s_ in md_sequences(max_len - 1, "PBFCGXE"):
@@ -434,7 +443,7 @@ def h_md_parse(max_len):
                             "expression (incl. `>` continuations), expectation lines, exit code, 1-based line number of the `$` line and the "
                             "nearest preceding heading/paragraph as title (where that is unambiguous)",
                    bound="all documents of <= %d lines over the line templates %s, and of <= %d lines over the templates P B F C E, with symbolic "
-                         "lowercase payload letters; language 's'; documents of <= %d lines over P B F C G X E also with CR LF line endings and without final newline"
+                         "lowercase payload letters; languages 's' and 'sx'; documents of <= %d lines over P B F C G X E also with CR LF line endings and without final newline"
                          % (max_len, {k: v[0] + "·" * v[1] + (v[2] if len(v) > 2 else "") for k, v in MD_TEMPLATES.items()}, max_len + 2, max_len - 1))
     h.models_cls = DocModels
     return h
@@ -447,14 +456,14 @@ def replay_md(rep, nat, h, res):
         lines = [md_text(t, p) for t, p in zip(seq, payloads)]
         eol, final_eol = r.ctx.notes.get("eol", ("\n", True))
         doc = eol.join(lines) + (eol if lines and final_eol else "")
-        nk, nv = nat.call("markdown_parse", [doc, ["s"]])
+        nk, nv = nat.call("markdown_parse", [doc, LANGUAGES])
         if nk != "return":
             rep.violation("parse:panic", "MarkdownParser::parse panics on %r: %s" % (doc, str(nv)[:80]),
-                          {"kind": "eval", "fn": "markdown_parse", "args": [doc, ["s"]], "native": [nk, nv], "harness": h.name})
+                          {"kind": "eval", "fn": "markdown_parse", "args": [doc, LANGUAGES], "native": [nk, nv], "harness": h.name})
             continue
         bad = md_judge_native((seq, lines), nv)
         if bad:
-            rep.violation(bad[0], bad[1], {"kind": "eval", "fn": "markdown_parse", "args": [doc, ["s"]], "native": [nk, nv], "harness": h.name})
+            rep.violation(bad[0], bad[1], {"kind": "eval", "fn": "markdown_parse", "args": [doc, LANGUAGES], "native": [nk, nv], "harness": h.name})
         else:
             rep.mismatches.append("%s: solver witness %r did not reproduce natively: %s" % (h.name, doc, str(nv)[:200]))
 
@@ -773,7 +782,7 @@ def md_update_expected(seq, moved=False, fails=(), code_fails=()):
                 return None          # a scrut block without command: no test case, nothing prescribed here
             t = next(tests)
             test_no += 1
-            rs = [x for x in code if seq[x] == "R"]
+            rs = [x for x in code if seq[x] in EXIT_CODES]
             if rs and rs[-1] != code[-1]:
                 return None          # exit-code line is re-emitted last: only prescribed when it was written last
             # the fences of a rewritten block may change their length (the statement keeps language / configuration / comments): any
@@ -864,7 +873,7 @@ def md_update_driver(ctx, args):
                                           escaping=Agg("Escaper", "Unicode", []), result=result)))
     ctx.notes["fails"] = fails
     ctx.notes["code_fails"] = code_fails
-    gen = Agg("MarkdownUpdateGenerator", None, [VecBuf([StringBuf([SInt(ord("s"), "char")])])])
+    gen = Agg("MarkdownUpdateGenerator", None, [VecBuf([StringBuf([SInt(ord(c), "char") for c in l_]) for l_ in LANGUAGES])])
     f = find_method(prog, "generators/markdown.rs", "generate_update")
     u = ctx.call(f, [new_ref(gen), args[0], Slice(outcomes)])
     if u.variant != "Ok":
@@ -971,6 +980,16 @@ def h_md_update(max_len):
         if s_ not in seen and any(x in s_ for x in "cgw"):
             seqs.append(s_)
             seen.add(s_)
+    # blocks of a second configured language
+    for s_ in md_sequences(max_len, "FfCXE", need="f"):
+        if s_ not in seen:
+            seqs.append(s_)
+            seen.add(s_)
+    # the exit code 0 written out
+    for s_ in md_sequences(max_len, "FCXrE", need="r"):
+        if s_ not in seen and "F" in s_:
+            seqs.append(s_)
+            seen.add(s_)
     inputs = [("doc=%s" % (s or "(empty)"), mk_md_setup(s)) for s in seqs]
     h = e2.Harness("markdown_update_passing_tests", md_update_driver, inputs, md_update_post, native="markdown_update", judge=None,
                    describe="updating a document whose tests all pass does not crash and returns it unchanged line for line (prose, other code "
@@ -985,6 +1004,8 @@ def h_md_update_failing(max_len):
     """the same documents with any subset of their tests failing (the command prints one other line)"""
     seqs = [s_ for s_ in md_sequences(max_len, "PHBFCGXR") if "C" in s_]
     seqs += [s_ for s_ in md_sequences(max_len, "FCcgwX") if ("C" in s_ or "c" in s_) and any(x in s_ for x in "cgw")]
+    seqs += [s_ for s_ in md_sequences(max_len, "FfCXE", need="f") if "C" in s_ and s_ not in seqs]
+    seqs += [s_ for s_ in md_sequences(max_len, "FCXrE", need="r") if "C" in s_ and "F" in s_ and s_ not in seqs]
 
     def mk(s_):
         base = mk_md_setup(s_)
@@ -1011,11 +1032,11 @@ def replay_update(rep, nat, h, res):
         doc = "\n".join(lines) + ("\n" if lines else "")
         fails = list(r.ctx.notes.get("fails", []))
         code_fails = list(r.ctx.notes.get("code_fails", []))
-        nk, nv = nat.call("markdown_update", [doc, ["s"], fails, code_fails])
+        nk, nv = nat.call("markdown_update", [doc, LANGUAGES, fails, code_fails])
         exp = md_update_expected(seq, fails=fails, code_fails=code_fails)
         if nk != "return":
             rep.violation("update:panic", "updating the document %r (all tests passing) panics: %s" % (doc, str(nv)[:100]),
-                          {"kind": "eval", "fn": "markdown_update", "args": [doc, ["s"]], "native": [nk, nv], "harness": h.name})
+                          {"kind": "eval", "fn": "markdown_update", "args": [doc, LANGUAGES], "native": [nk, nv], "harness": h.name})
             continue
         if "parse_error" in nv or exp is None:
             rep.mismatches.append("%s: solver witness %r did not reproduce natively: %s" % (h.name, doc, str(nv)[:200]))
@@ -1043,13 +1064,13 @@ def replay_update(rep, nat, h, res):
             rep.violation("update:updated-document-parses-differently",
                           "updating %r with all tests passing yields %r, which parses to %s instead of the original %s"
                           % (doc, nv["updated"], nv.get("reparsed"), nv.get("original")),
-                          {"kind": "eval", "fn": "markdown_update", "args": [doc, ["s"]], "native": [nk, nv], "harness": h.name})
+                          {"kind": "eval", "fn": "markdown_update", "args": [doc, LANGUAGES], "native": [nk, nv], "harness": h.name})
         elif not update_matches_concrete(seq, lines, exp, nv.get("updated")):
             trunc = nv.get("updated") is not None and len(nv["updated"]) < len(want)
             alt = md_update_expected(seq, moved=True, fails=fails, code_fails=code_fails)
             moved_ok = bool(alt) and nv.get("tests") != 0 and update_matches_concrete(seq, lines, alt, nv.get("updated"))
             rep.violation("update:%s" % ("truncated" if trunc else "lines-before-command-moved-after-it" if moved_ok else "changed-passing-document"),
                           "updating %r with all tests passing yields %r instead of %r" % (doc, nv.get("updated", nv), want),
-                          {"kind": "eval", "fn": "markdown_update", "args": [doc, ["s"]], "native": [nk, nv], "harness": h.name})
+                          {"kind": "eval", "fn": "markdown_update", "args": [doc, LANGUAGES], "native": [nk, nv], "harness": h.name})
         else:
             rep.mismatches.append("%s: solver witness %r did not reproduce natively" % (h.name, doc))
